@@ -108,7 +108,7 @@ Definition state_same (d : digest float) (cs : list (float * float)) (total mn m
   && fsame (d_total d) total && fsame (d_min d) mn && fsame (d_max d) mx
   && fsame (d_comp d) comp.
 
-Definition check_td (agreement_required : bool) (input output : J) : verdict :=
+Definition check_td (agreement_required prop_required : bool) (input output : J) : verdict :=
   match input, output with
   | JL [jp; jqs; jxs],
     JL [JS okt; JL [jst; jdirect; jcdfs; JF count; JB empty; jfin; JF med]] =>
@@ -142,7 +142,8 @@ Definition check_td (agreement_required : bool) (input output : J) : verdict :=
                      && all2 (fun x c => (if flt x lo then feq c 0%float else true)
                                          && (if fle hi x then feq c 1%float else true)) xs cdfs
                 else Nat.eqb (List.length cs) 0 && forallb (fun c => feq c 0%float) cdfs) in
-          ok_verdict (if agreement_required then agree else true) prop
+          ok_verdict (if agreement_required then agree else true)
+                     (if prop_required then prop else true)
       | _, _, _, _, _, _, _ => malformed
       end
   | _, _ => malformed
@@ -291,7 +292,8 @@ Definition check_pipe (input output : J) : verdict :=
 
 (* ------------------------------------------------------------------ sampled rank error: "stat"
    values are a permutation of 0..n-1, so the true rank of an estimate e is e itself and the
-   exact q-quantile is q*(n-1). Statistical claim: sampled, not proved. Tolerance: 1% of n. *)
+   exact q-quantile is q*(n-1). Statistical claim ("small rank error for large inputs"): sampled,
+   not proved. Stated tolerance: |estimate - exact| <= 1% of n, for n >= 10^4. *)
 Definition stat_values (n a b : Z) : list float :=
   map (fun i => fofZ ((a * Z.of_nat i + b) mod n)) (seq 0 (Z.to_nat n)).
 Definition rank_err_ok (n : Z) (q e : float) : bool :=
@@ -314,7 +316,7 @@ Definition check_stat (input output : J) : verdict :=
               fsames (aq_finish farith qs (merge_all accs c)) res
             else true in
           let prop := all2 (est_ok 0%float (fofZ (n - 1))) qs res
-                      && all2 (rank_err_ok n) qs res in
+                      && (if 10000 <=? n then all2 (rank_err_ok n) qs res else true) in
           ok_verdict agree prop
       | _, _ => malformed
       end
@@ -505,8 +507,11 @@ Definition check_kmvk (input output : J) : verdict :=
 
 (* ------------------------------------------------------------------ dispatcher *)
 Definition check_C15 (kind : string) (input output : J) : verdict :=
-  if String.eqb kind "td" then check_td true input output
-  else if String.eqb kind "tdx" then check_td false input output
+  if String.eqb kind "td" then check_td true true input output
+  else if String.eqb kind "tdx" then check_td false true input output
+  (* "tdw": add_weighted with weights < 1 -- outside the property's domain (the theorems assume
+     weights >= 1); only model agreement is judged *)
+  else if String.eqb kind "tdw" then check_td true false input output
   else if String.eqb kind "mono" then check_mono input output
   else if String.eqb kind "pipe" then check_pipe input output
   else if String.eqb kind "stat" then check_stat input output
